@@ -194,6 +194,9 @@ def run(scn):
                         stats["long_gaps"] += 1
         else:
             stats["burst_reads" if op["n"] > 1 else "single_reads"] += 1
+    from ..agents import StateSampler
+    fe = tb.dut.frontend if core else dut
+    samp = StateSampler(sim, [fe.fsm.state, av.read, av.write, av.waitrequest, av.readdatavalid, port.cmd.valid, port.cmd.ready, port.wdata.ready, port.rdata.valid])
     mas = AvalonMaster(sim, av, ops, anb, on_wbeat, on_rcmd, on_rdata, scn.get("scramble", 0x155555))
     sim.add_agent("sys", mas)
     if not core:
@@ -237,7 +240,7 @@ def run(scn):
                 break
     stats["core_variant_runs"] = 1 if core else 0
     return {"violations": viol.v, "stats": stats, "cycles": cyc, "sim_ps": sim.now, "digest": sim.digest(),
-            "nontrivial": mas.nacc >= 2, "states": ["av%d port%d" % (adw, pdw)],
+            "nontrivial": mas.nacc >= 2, "states": samp.states("av%d:%d " % (adw, pdw)),
             "summary": {"av_dw": adw, "port_dw": pdw, "ops": len(ops), "cycles": cyc}}
 
 
